@@ -170,6 +170,9 @@ class _Desugar(ast.NodeTransformer):
         return n
 
     def visit_Assign(self, st):
+        qh = self._queue_head_pop(st)
+        if qh is not None:
+            return qh
         if len(st.targets) > 1:
             # a = b = V  ->  a = V; b = V   (V evaluated once: through a temporary unless it is a constant or a pure access path)
             v = st.value
@@ -244,6 +247,21 @@ class _Desugar(ast.NodeTransformer):
                 return st
         self.generic_visit(st)
         return st
+
+    @staticmethod
+    def _queue_head_pop(st):
+        """`x = Q.interrupted_individuals.pop(0)`: the head is read, then removed -- written `x = Q...[0]` / `Q....remove(x)` (the removal of the head by value
+        removes the head itself).  Only for the queue of interrupted customers, whose head/remove form the typestate rules read."""
+        v = st.value
+        if (len(st.targets) == 1 and isinstance(st.targets[0], ast.Name) and isinstance(v, ast.Call) and isinstance(v.func, ast.Attribute) and v.func.attr == "pop"
+                and len(v.args) == 1 and not v.keywords and isinstance(v.args[0], ast.Constant) and v.args[0].value == 0
+                and isinstance(v.func.value, ast.Attribute) and v.func.value.attr == "interrupted_individuals"
+                and not any(isinstance(x, ast.Call) for x in ast.walk(v.func.value))):
+            q = v.func.value
+            head = ast.Assign(targets=[st.targets[0]], value=ast.Subscript(value=copy.deepcopy(q), slice=ast.Constant(value=0), ctx=ast.Load()))
+            rem = ast.Expr(value=ast.Call(func=ast.Attribute(value=copy.deepcopy(q), attr="remove", ctx=ast.Load()), args=[ast.Name(id=st.targets[0].id, ctx=ast.Load())], keywords=[]))
+            return [_loc(head, st), _loc(rem, st)]
+        return None
 
     def visit_Return(self, st):
         v = st.value
@@ -1219,6 +1237,7 @@ def _trivial_members(P, anchors):
     `X.member(args)` is replaced by that expression with self := X.  For receivers other than self the member name must be defined by exactly one class
     and never assigned."""
     members = {}        # name -> [(ClassInfo, fn, expr, is_property, params)]
+    static_members = set()
     for ci in P.classes.values():
         for name, fn in ci.methods.items():
             if name in anchors or name.startswith("__"):
@@ -1242,6 +1261,8 @@ def _trivial_members(P, anchors):
             if static and any(isinstance(x, ast.Name) and x.id == "self" for x in ast.walk(e)):
                 continue
             members.setdefault(name, []).append((ci, fn, e, "property" in decos, params[1:]))
+            if static:
+                static_members.add((ci.name, name))
     if not members:
         return
     assigned = set()
@@ -1276,6 +1297,8 @@ def _trivial_members(P, anchors):
                 return _NameSubst(mapping).visit(copy.deepcopy(cand[2]))
 
             def visit_Call(self, n):
+                if isinstance(n.func, ast.Attribute):
+                    n.func._is_callee = True
                 self.generic_visit(n)
                 if isinstance(n.func, ast.Attribute) and not n.keywords and n.func.attr in members and not any(isinstance(a, ast.Starred) for a in n.args):
                     e = self._expr_for(n.func.value, n.func.attr, True, n.args)
@@ -1289,6 +1312,18 @@ def _trivial_members(P, anchors):
                     e = self._expr_for(n.value, n.attr, False)
                     if e is not None:
                         return _loc(e, n)
+                    # a static expression member used as a value (`key=self.by_priority`): the function it names
+                    if not getattr(n, "_is_callee", False) and isinstance(n.value, ast.Name) and n.value.id == "self" and ci_use is not None \
+                            and not _overridden_below(P, ci_use.name, n.attr):
+                        for c in P.mro(ci_use.name):
+                            hit = [(ci, fn, e2, isprop, ps) for (ci, fn, e2, isprop, ps) in members.get(n.attr, []) if ci.name == c]
+                            if hit and (c, n.attr) in static_members:
+                                ci, fn, e2, isprop, ps = hit[0]
+                                lam = ast.Lambda(args=ast.arguments(posonlyargs=[], args=[ast.arg(arg=p_) for p_ in ps], vararg=None, kwonlyargs=[], kw_defaults=[],
+                                                                    kwarg=None, defaults=[]), body=copy.deepcopy(e2))
+                                return _loc(lam, n)
+                            if hit or (c in P.classes and n.attr in P.classes[c].methods):
+                                break
                 return n
         return T()
     for _ in range(3):          # members defined in terms of other members
